@@ -441,7 +441,11 @@ func c13RunDiffHistory(t *testing.T, run *vk.Run, st *c13dStats, hidx int, ops [
 	defer mr.Close()
 	ctx, cancel := context.WithCancel(context.Background())
 	defer cancel()
-	rs, err := NewRedisStorage(ctx, &RedisConfig{Addr: mr.Addr(), PoolSize: 2})
+	pool := 2
+	if hidx%50 == 49 {
+		pool = 1 // configuration axis: every command shares one connection (must not stall or deadlock)
+	}
+	rs, err := NewRedisStorage(ctx, &RedisConfig{Addr: mr.Addr(), PoolSize: pool})
 	if err != nil {
 		t.Errorf("[setup failed] redis storage: %v", err)
 		return
@@ -474,7 +478,7 @@ func c13RunDiffHistory(t *testing.T, run *vk.Run, st *c13dStats, hidx int, ops [
 		return "other"
 	}
 	report := func(i int, sig string, op c13dOp, a, b c13dAns, extra map[string]any) {
-		d := map[string]any{"history": hidx, "mode": mode.Name, "op_index": i, "op": op.String(), "memory": a.render(), "redis": b.render(),
+		d := map[string]any{"history": hidx, "mode": mode.Name, "redis_pool_size": pool, "op_index": i, "op": op.String(), "memory": a.render(), "redis": b.render(),
 			"memory_err": a.Text, "redis_err": b.Text, "history_prefix": c13dPrefix(ops, i)}
 		for k, v := range extra {
 			d[k] = v
@@ -698,7 +702,7 @@ func TestVerifC13Differential(t *testing.T) {
 	vk.Quiet()
 	run := vk.Start(t, "C13", "differential")
 	defer run.Finish()
-	run.Rule("seeded histories of 30-80 operations in the repositories' operation/value subset (scalar string keys: Set/Get/Delete/Exists/SetNX/CAS/SetExpiration/GetExpiration; list keys; hash keys; counter keys; ttl in {0, short, 1 h}; 7 of 8 histories: short = 40 ms for Set/SetNX only and sleep 60 ms; 1 of 8: short = 1 s for every ttl-carrying operation incl. SetList/CAS/SetExpiration and sleep 1.2 s) executed step by step on memory storage and on Redis storage over miniredis (each sleep mirrored by FastForward); answers and an immediate read-back compared after normalisation (SetList with nil/empty over existing lists included: GetList must answer [] on both; the clean tree's present-empty (memory) vs absent (Redis) difference is tolerated only for Exists on a list both sides read as empty); finally +48 h on miniredis: ttl-0 keys must survive; distinct = (previous op > op, ttl-argument class, key class)")
+	run.Rule("seeded histories of 30-80 operations in the repositories' operation/value subset (scalar string keys: Set/Get/Delete/Exists/SetNX/CAS/SetExpiration/GetExpiration; list keys; hash keys; counter keys; ttl in {0, short, 1 h}; 7 of 8 histories: short = 40 ms for Set/SetNX only and sleep 60 ms; 1 of 8: short = 1 s for every ttl-carrying operation incl. SetList/CAS/SetExpiration and sleep 1.2 s) executed step by step on memory storage and on Redis storage over miniredis (PoolSize 2; every 50th history PoolSize 1) (each sleep mirrored by FastForward); answers and an immediate read-back compared after normalisation (SetList with nil/empty over existing lists included: GetList must answer [] on both; the clean tree's present-empty (memory) vs absent (Redis) difference is tolerated only for Exists on a list both sides read as empty); finally +48 h on miniredis: ttl-0 keys must survive; distinct = (previous op > op, ttl-argument class, key class)")
 	nh := run.Pick(200, 4000)
 	st := &c13dStats{distinct: map[string]struct{}{}, counts: map[string]int64{}}
 	master := run.Rand("diff")
